@@ -580,3 +580,73 @@ func VerifC11EagerInterrupt() {
 	vassert(e2 == nil, "the resumed run completes")
 	vassert(final == 33, "no update is lost across interrupt and resume")
 }
+
+// Batch step (Pregel / all-predecessor graph) with two nodes that ask for interrupt-and-rerun and a third, slower node
+// that updates the state in its body and in its post-handler: the state carried by the interrupt and into the resumed
+// run holds the third node's updates (its completion is collected before the checkpoint is built), and the resumed
+// run completes with nothing lost.
+func VerifC11RerunSiblings() {
+	ctx := context.Background()
+	vcfg("delaybound", 1+vtier())
+	vcfg("selectfirst", 1)
+	vcfg("race", 1)
+	_ = RegisterSerializableType[c11Deep]("c11_deep")
+	attempts := map[string]int{}
+	asker := func(key string) *Lambda {
+		return InvokableLambda(func(ctx context.Context, in map[string]any) (map[string]any, error) {
+			vMu.Lock()
+			attempts[key]++
+			first := attempts[key] == 1
+			vMu.Unlock()
+			if first {
+				return nil, InterruptAndRerun
+			}
+			return map[string]any{key: 1}, nil
+		})
+	}
+	worker := InvokableLambda(func(ctx context.Context, in map[string]any) (map[string]any, error) {
+		vyield()
+		vyield()
+		err := ProcessState(ctx, func(ctx context.Context, s *c11Deep) error { s.N++; return nil })
+		return map[string]any{"c": 1}, err
+	})
+	post := WithStatePostHandler(func(ctx context.Context, out map[string]any, s *c11Deep) (map[string]any, error) {
+		s.N += 10
+		return out, nil
+	})
+	final := -1
+	g := NewGraph[map[string]any, map[string]any](WithGenLocalState(func(ctx context.Context) *c11Deep { return &c11Deep{} }))
+	_ = g.AddLambdaNode("a", asker("a"))
+	_ = g.AddLambdaNode("b", asker("b"))
+	_ = g.AddLambdaNode("c", worker, post)
+	_ = g.AddLambdaNode("z", InvokableLambda(func(ctx context.Context, in map[string]any) (map[string]any, error) {
+		err := ProcessState(ctx, func(ctx context.Context, s *c11Deep) error { final = s.N; return nil })
+		return map[string]any{"n": len(in)}, err
+	}))
+	for _, k := range []string{"a", "b", "c"} {
+		_ = g.AddEdge(START, k)
+		_ = g.AddEdge(k, "z")
+	}
+	_ = g.AddEdge("z", END)
+	store := &vStoreLite{m: map[string][]byte{}}
+	var opts []GraphCompileOption
+	opts = append(opts, WithCheckPointStore(store))
+	if vchoose("dag", 2) == 1 {
+		opts = append(opts, WithNodeTriggerMode(AllPredecessor))
+	}
+	r, err := g.Compile(ctx, opts...)
+	vassert(err == nil, "graph compiles")
+	in := map[string]any{"in": 1}
+	_, e1 := r.Invoke(ctx, in, WithCheckPointID("rs"))
+	info, ok := ExtractInterruptInfo(e1)
+	vassert(ok, "the run is interrupted by the asking nodes")
+	if !ok {
+		return
+	}
+	st, _ := info.State.(*c11Deep)
+	vassert(st != nil && st.N == 11, "the state reported with the interrupt holds the body and post-handler update of the sibling that ran in the same step")
+	vquiesce()
+	out, e2 := r.Invoke(ctx, in, WithCheckPointID("rs"))
+	vassert(e2 == nil, "the resumed run completes")
+	vassert(final == 11 && out["n"] == 3, "no state update and no output is lost across interrupt and resume")
+}
